@@ -55,8 +55,8 @@ func C11(tier common.Tier) int {
 	run.Assume("scheduling points at Pass callbacks are sufficient for order dependence through shared state; unsynchronised accesses between points are delegated to the free-running -race pass", "Go's per-map random iteration order is re-drawn in every execution: a message built by ranging over a map shows up as a mismatch with high probability but is not owned by the scheduler")
 	shapes := e4.Shapes()
 	progs := []*prog.Program{e4.WithUnrelated(e4.Chain(shapes[1])), e4.WithUnrelated(e4.Diamond(shapes[3]))}
-	progs = append(progs, e4.LineDirectives(), e4.SharedSyntax())
-	names := []string{"chain+unrelated", "diamond+unrelated", "line-directives", "shared-syntax"}
+	progs = append(progs, e4.LineDirectives(), e4.SharedSyntax(), e4.FileBoundaries())
+	names := []string{"chain+unrelated", "diamond+unrelated", "line-directives", "shared-syntax", "file-boundaries"}
 
 	common.Sharded(run, common.NumWorkers(), func(run *common.Run, sh common.Shard) {
 		for pi, p := range progs {
